@@ -16,6 +16,14 @@ REC = {}          # recorder state: last observed calls of the hooked dependenci
 _SIGS = {}
 
 
+def real(x):
+    """The samples as real numbers: the reference models work in float64; integer-typed recordings (raw A/D counts of any
+    width, signed or unsigned) are read as the numbers they denote, so that no reference computation wraps around."""
+    x = np.asarray(x)
+    return x.astype(float) if x.dtype.kind in 'iub' else x
+
+
+
 def bind(orig, a, k):
     """Arguments of a call as a dict with defaults applied."""
     f = orig
@@ -94,7 +102,7 @@ def documented_filter(sig, fs, f_range, filter_kwargs=None, pad=True, pass_type=
     from neurodsp.filt import filter_signal
     from neurodsp.filt.fir import compute_filter_length
     fk = dict(filter_kwargs or {})
-    sig = np.asarray(sig)
+    sig = real(sig)
     off = 0
     n_sec = fk.get('n_seconds', None)
     n_cyc = fk.get('n_cycles', None if n_sec is not None else 3)
@@ -169,7 +177,7 @@ def cycles_domain(sig, fs, f_range, center, fek, other_filter_kwargs=()):
 def mon_find_extrema(result, *a, **k):
     orig = attach.original('bycycle.cyclepoints.extrema', 'find_extrema')
     args = bind(orig, a, k)
-    sig = np.asarray(args['sig'])
+    sig = real(args['sig'])
     peaks, troughs = result
     peaks, troughs = as_int_list(peaks), as_int_list(troughs)
     try:
@@ -231,7 +239,7 @@ def mon_find_extrema(result, *a, **k):
 def mon_find_zerox(result, pre, *a, **k):
     orig = attach.original('bycycle.cyclepoints.zerox', 'find_zerox')
     args = bind(orig, a, k)
-    sig = np.asarray(args['sig'])
+    sig = real(args['sig'])
     peaks, troughs = as_int_list(args['peaks']), as_int_list(args['troughs'])
     rises, decays = as_int_list(result[0]), as_int_list(result[1])
     ext = sorted([(p, 'p') for p in peaks] + [(t, 't') for t in troughs])
@@ -442,7 +450,7 @@ def check_shape(df, sig, fs, f_range, n_cycles, where, with_band_amp=True):
 def mon_compute_shape_features(result, *a, **k):
     orig = attach.original('bycycle.features.shape', 'compute_shape_features')
     args = bind(orig, a, k)
-    sig = np.asarray(args['sig'])
+    sig = real(args['sig'])
     fek = args['find_extrema_kwargs']
     boundary = (fek or {}).get('boundary', 0)
     REC['shape'] = {'rows': len(result), 'center': args['center_extrema']}
@@ -522,7 +530,7 @@ def mon_period_consistency(result, *a, **k):
 def mon_monotonicity(result, *a, **k):
     orig = attach.original('bycycle.features.burst', 'compute_monotonicity')
     args = bind(orig, a, k)
-    df, sig = args['df_samples'], np.asarray(args['sig'])
+    df, sig = args['df_samples'], real(args['sig'])
     center = centre_of(df)
     if center is None:
         count('C05:centring_unknown')
@@ -556,7 +564,7 @@ def documented_mask(sig, fs, f_range, amp_threshes, min_n_cycles, min_burst_dura
 def mon_burst_fraction(result, *a, **k):
     orig = attach.original('bycycle.features.burst', 'compute_burst_fraction')
     args = bind(orig, a, k)
-    df, sig = args['df_samples'], np.asarray(args['sig'])
+    df, sig = args['df_samples'], real(args['sig'])
     center = centre_of(df)
     if center is None:
         count('C07:centring_unknown')
@@ -675,7 +683,7 @@ def cap_compute_features(*a, **k):
     return {'burst_kwargs': copy.deepcopy(args['burst_kwargs']),
             'threshold_kwargs': copy.deepcopy(args['threshold_kwargs']),
             'find_extrema_kwargs': copy.deepcopy(args['find_extrema_kwargs']),
-            'sig': np.array(args['sig'], copy=True)}
+            'sig': np.array(real(args['sig']), copy=True)}
 
 
 def mon_compute_features(result, pre, *a, **k):
